@@ -2,8 +2,8 @@
 import itertools
 from fractions import Fraction
 
-from extract import precedence, units
-from harness import cascade_docs, docs
+from extract import c06_source, precedence, units
+from harness import c06_real, cascade_docs, docs
 from harness.cssval import canon, enc, frac, opt, outcome
 from harness.snap import SnapSection
 from vlib import sx
@@ -589,12 +589,29 @@ class FakeStyle(dict):
         self.element = None
         self.attrs = {}
         self.base_url = None
-        from weasyprint.css.computed_values import _font_style_cache_key
-        key = _font_style_cache_key(self)
-        self.cache = {'ratio_ex': {key: ex}, 'ratio_ch': {key: ch}}
+        # Pango's measurement is a parameter of this section (see `pango_parameter`); the real character_ratio
+        # and its per-document cache are compared in the `character-ratio-cache` section
+        self.ratio_ex, self.ratio_ch = ex, ch
 
     def copy(self):
-        raise AssertionError('character_ratio must be served from the cache')
+        raise AssertionError('character_ratio is a parameter of this section')
+
+
+class pango_parameter:
+    """Inside the block `computed_values.character_ratio(style, c)` is the parameter carried by the FakeStyle
+    (the function-level sections compare the arithmetic of `length` & co., not Pango and not the cache)."""
+
+    def __enter__(self):
+        from weasyprint.css import computed_values as cv
+        self.cv, self.real = cv, cv.character_ratio
+
+        def character_ratio(style, character):
+            assert character in ('x', '0')
+            return style.ratio_ex if character == 'x' else style.ratio_ch
+        cv.character_ratio = character_ratio
+
+    def __exit__(self, *exc):
+        self.cv.character_ratio = self.real
 
 
 def w_thunk(mapping, key, absent_parent=False):
@@ -614,8 +631,7 @@ def w_env(style, gets=(), model_overrides=None):
     pfs = 'none' if parent is None else over.get('parent_font_size', w_thunk(parent, 'font_size'))
     pfw = 'none' if parent is None else (enc(parent['font_weight']) if 'font_weight' in parent else ['err', 'KeyError'])
     return [over.get('font_size', w_thunk(style, 'font_size')), w_thunk(style.root_style, 'font_size'), pfs, pfw,
-            style.cache['ratio_ex'][next(iter(style.cache['ratio_ex']))],
-            style.cache['ratio_ch'][next(iter(style.cache['ratio_ch']))],
+            style.ratio_ex, style.ratio_ch,
             [[k, enc(style[k])] for k in gets if k in style],
             [[k, enc(v)] for k, v in style.specified.items()],
             style.is_root_element, bool(style.pseudo_type),
@@ -704,12 +720,12 @@ def computed_section(run):
                 nontrivial=isinstance(value, Dimension) and value.unit in relative,
                 tags=[f'unit:{value.unit}' if isinstance(value, Dimension) else f'other:{type(value).__name__}'])
 
-    def call(key, style, value, env, nontrivial, tag):
+    def call(key, style, value, env, nontrivial, tag, **extra):
         fn = cv.COMPUTER_FUNCTIONS[key]
         out = outcome(lambda: fn(style, key, value))
         sec.add(sx.line('compute', key, env, enc(value)), out,
-                meta={'fn': fn.__name__, 'key': key, 'value': repr(value), 'signature': f'{key}:{tag}',
-                      'pseudo': bool(style.pseudo_type), 'font_size': str(style.get('font_size', ''))},
+                meta=dict({'fn': fn.__name__, 'key': key, 'value': repr(value), 'signature': f'{key}:{tag}',
+                           'pseudo': bool(style.pseudo_type), 'font_size': str(style.get('font_size', ''))}, **extra),
                 nontrivial=nontrivial, tags=[f'{fn.__name__}:{tag}'])
 
     # font_size
@@ -737,7 +753,8 @@ def computed_section(run):
         for parent_weight in weights + [450, 1000, 'bold', F(7, 2), None, 'missing']:
             parent = None if parent_weight is None else ({} if parent_weight == 'missing' else {'font_weight': parent_weight})
             style = FakeStyle({}, parent_style=parent, root_style={'font_size': 16})
-            call('font_weight', style, value, w_env(style), value in ('bolder', 'lighter'), str(value))
+            call('font_weight', style, value, w_env(style), value in ('bolder', 'lighter'), f'{value}:{parent_weight}',
+                 parent_weight=parent_weight if isinstance(parent_weight, int) or parent_weight is None else str(parent_weight))
 
     # border_width and friends
     width_keys = [k for k, f in cv.COMPUTER_FUNCTIONS.items() if f is cv.border_width]
@@ -819,7 +836,33 @@ def computed_section(run):
                            ('attr()', ('id', 'string', 'fb')), ('attr()', ('title', 'string', 'fb')),
                            ('attr()', ('id', 'url', 'fb')), ('quote', 'open-quote'), ('leader()', ('string', 'dots')),
                            ('url', ('external', 'http-x')), ('bogus', 'x'), ('string()', ('title', 'first'))])
+    def breadth():
+        return rng.choice(['auto', 'min-content', 'max-content', dim(('px', 'em', '%', 'fr', 'rem', 'ex', 'pt')),
+                           dim(('fr', 'em', 'px'))])
+
+    def track(depth=1):
+        r = rng.random()
+        if r < 0.55:
+            return breadth()
+        if r < 0.75:
+            return ('minmax()', breadth(), breadth())
+        if r < 0.85 or depth == 0:
+            return ('fit-content()', dim(('px', 'em', '%', 'rem')))
+        return ('repeat()', rng.choice([1, 2, 'auto-fill', 'auto-fit']), track_list(depth - 1))
+
+    def names():
+        return rng.choice([(), (), ('a',), ('a', 'b')])
+
+    def track_list(depth=1):
+        out = [names()]
+        for _ in range(rng.randint(1, 3)):
+            out += [track(depth), names()]
+        return tuple(out)
     generators = {
+        'grid_template_columns': lambda: rng.choice(['none', ('subgrid', (('a',), ())), track_list(), track_list(), track_list()]),
+        'grid_template_rows': lambda: rng.choice(['none', track_list(), track_list(), 'foo', ('x', 3, 'y')]),
+        'grid_auto_rows': lambda: some([1, 2, 3], lambda: track(0)),
+        'grid_auto_columns': lambda: some([1, 2], lambda: track(0)),
         'border_spacing': lambda: some([2], lambda: dim(('px', 'em', 'pt', 'rem'))),
         'size': lambda: some([2], lambda: dim(('px', 'in', 'cm', 'em'))),
         'clip': lambda: rng.choice([(), some([4], lambda: rng.choice(['auto', dim(('px', 'em'))]))]),
@@ -829,8 +872,8 @@ def computed_section(run):
         'object_position': lambda: some([1], lambda: (rng.choice(['left', 'right']), dim(), rng.choice(['top', 'bottom']), dim())),
         'background_size': lambda: some([1, 2, 3], lambda: rng.choice(['contain', 'cover', (rng.choice(['auto', dim()]), rng.choice(['auto', dim()]))])),
         'border_image_slice': lambda: some([1, 2, 3, 4], lambda: dim((None, '%'))) + rng.choice([(), ('fill',)]),
-        'border_image_width': lambda: some([1, 2, 3, 4], lambda: rng.choice(['auto', dim((None, 'px', 'em', '%'))])),
-        'mask_border_width': lambda: some([1, 2, 3, 4], lambda: rng.choice(['auto', dim((None, 'px', '%'))])),
+        'border_image_width': lambda: some([1, 2, 3, 4], lambda: rng.choice(['auto', dim((None, 'px', 'em', '%', 'rem', 'ex', 'ch', 'pt'))])),
+        'mask_border_width': lambda: some([1, 2, 3, 4], lambda: rng.choice(['auto', dim((None, 'px', '%', 'em', 'in', 'ch'))])),
         'border_image_outset': lambda: some([1, 2, 3, 4], lambda: rng.choice([dim((None, 'px', 'em')), rng.randint(0, 3)])),
         'border_image_repeat': lambda: some([1, 2], lambda: rng.choice(['stretch', 'repeat', 'round', 'space'])),
         'transform': lambda: some([0, 1, 2], lambda: rng.choice([('translate', (dim(('px', 'em', '%')), dim(('px', 'em', '%')))),
@@ -1060,13 +1103,21 @@ def memo_section(run):
         run, 'style-memo',
         'real ComputedStyle (root, or child of a root) read for a sequence of 3..14 keys with repeats: returned '
         'value or exception of every read, in order, vs the dict model (stores, early stores left behind by an '
-        'exception, self[position] / self[float] pre-reads); roots that fail on page / text-decoration-* / position '
-        '(var() solved to inherit) make the element reads fail; first case = Witness.C06.stale_after_exception on '
-        'the real code; non-trivial = a key is read twice or a read raises')
+        'exception, self[position] / self[float] pre-reads); roots with var() solved to inherit on page / '
+        'text-decoration-* / position (the initial value since commit 582f36b) and roots holding a string for '
+        'text-decoration-line (the union with the child value raises); first case = '
+        'Witness.C06.stale_after_exception_chain on the real code; non-trivial = a key is read twice or a read raises')
     element = ET.Element('p', ELEMENT_ATTRS)
     failing = ['page', 'text_decoration_line', 'text_decoration_style', 'position', 'font_size', 'float']
     for case in range(run.n(500, 8000)):
         if case == 0:
+            # Witness.C06.stale_after_exception_chain on the real code: the root holds a string where the validator
+            # gives a set, so `value | parent_value` raises after the child has stored the inherited value
+            chain = [({'text_decoration_line': ('underline', (3, (0, 0, 0, 1)))}, None),
+                     ({'text_decoration_line': ('inherit', (3, (0, 0, 0, 1)))}, None)]
+            order = ['text_decoration_line', 'text_decoration_line', 'text_decoration_line']
+        elif case == 1:
+            # the input of the repaired finding var-inherit-on-root, on the memoising dict: no read raises any more
             chain = [({'page': (make_pending('inherit'), (3, (0, 0, 0, 1)))}, None),
                      ({'page': (make_pending(INVALID), (3, (0, 0, 0, 1)))}, None)]
             order = ['page', 'page', 'page']
@@ -1075,6 +1126,9 @@ def memo_section(run):
             if run.rng.random() < 0.5:
                 for k in run.rng.sample(failing, run.rng.randint(1, 3)):
                     root[k] = (make_pending('inherit'), (3, (0, 0, 0, 1)))
+            if run.rng.random() < 0.3:
+                # a parent that raises (mock value of the wrong shape): the only way left to a stale entry
+                root['text_decoration_line'] = (run.rng.choice(['underline', 'overline']), (3, (0, 0, 0, 1)))
             chain = [(root, None)]
             if run.rng.random() < 0.8:
                 cascaded = random_cascaded(run.rng, vocab)
@@ -1112,22 +1166,31 @@ def memo_section(run):
 
 class C06(PropCheck):
     id = 'C06'
-    extractors = (precedence.generate, units.generate)
-    modules = ('WpModel.Props.C06', 'WpModel.Props.C06Memo', 'WpModel.Props.C06Values', 'WpModel.Witness.C06')
+    extractors = (precedence.generate, units.generate, c06_source.generate)
+    modules = ('WpModel.Props.C06', 'WpModel.Props.C06Memo', 'WpModel.Props.C06Values', 'WpModel.Props.C06Ratio',
+               'WpModel.Props.C06Source', 'WpModel.Witness.C06')
     trusted_base = (
         'modelled, not verified: StyleFor.__init__ / add_page_declarations weight fold, declaration_precedence, '
-        '_page_type_match, preprocess_stylesheet control flow, evaluate/parse_media_query, ComputedStyle.__missing__, '
-        'AnonymousStyle.__missing__, text_decoration, and 15 functions of computed_values.py (hand transcription, '
+        '_page_type_match, preprocess_stylesheet control flow, evaluate/parse_media_query, the media attribute lines of '
+        'find_stylesheets, ComputedStyle.__missing__, AnonymousStyle.__missing__, text_decoration, the cache discipline '
+        'of character_ratio, and 30 functions of computed_values.py (hand transcription, '
         'tied by the correspondence); tables LENGTHS_TO_PIXELS, FONT_SIZE_KEYWORDS, BORDER_WIDTH_KEYWORDS, '
-        'FONT_WEIGHT_RELATIVE, INHERITED, INITIAL_NOT_COMPUTED, INITIAL_VALUES, COMPUTER_FUNCTIONS and the graph of '
-        'declaration_precedence are regenerated from the source each run',
+        'FONT_WEIGHT_RELATIVE, INHERITED, INITIAL_NOT_COMPUTED, INITIAL_VALUES, COMPUTER_FUNCTIONS, the graph of '
+        'declaration_precedence, and the literal tables inside the mirrored functions (membership tuples, '
+        'AnonymousStyle presets, the layout of the per-document ratio cache, the cache table selected per character) '
+        'are regenerated from the source each run',
         'assumed, not modelled: cssselect2 (selector parsing, matching, specificity; used on both sides of the '
         'document-level correspondence), tinycss2 (tokeniser, parse_nth), the per-property validators (the cascaded '
-        'value of each declaration is obtained from the real preprocess_declarations), Pango (character_ratio is a '
-        'parameter of the model)',
+        'value of each declaration is obtained from the real preprocess_declarations), Pango (what character_ratio '
+        'measures is a parameter of the model, obtained per style from the real function on an empty cache), '
+        'resolve_var / Pending.solve (the model is told what a var() declaration solves to on each element: C07)',
     )
     assumptions = (
         'isinstance(value, int) is modelled as "denominator 1": harnesses never pass integral Fractions/floats there',
+        'str.strip() / str.lower() of the media attribute are modelled on ASCII text; generated attribute texts are ASCII',
+        'the ex / ch ratio of a style depends on its 14 font properties only (KeyDetermines of '
+        'C06.ratio_cache_transparent); the ratios given to the model are measured by the real character_ratio on a copy '
+        'of the style with an empty cache',
         'keyword font sizes are floats in the implementation (16 * (3 / 5)); the model holds the exact rational and '
         'values are compared up to 1e-9 relative (counted as float_rounding); discrete comparisons only involve '
         'dyadic values or the keyword floats themselves',
@@ -1136,6 +1199,7 @@ class C06(PropCheck):
     def correspondence(self, run):
         docs.quiet()
         TALLY.lines.clear()
+        c06_real.regression_section(run)            # corpus first
         precedence_section(run)
         matcher_sort_section(run)
         media_section(run)
@@ -1144,12 +1208,15 @@ class C06(PropCheck):
         fold_section(run)
         pair_section(run)
         preprocess_section(run)
-        computed_section(run)
+        with pango_parameter():
+            computed_section(run)
         style_section(run)
         memo_section(run)
         all_properties_section(run)
         cascade_docs.document_section(run)
         cascade_docs.conflict_section(run)
+        c06_real.ratio_cache_section(run)
+        c06_real.var_document_section(run)
         TALLY.report(run)
 
     # -- judge: does the implementation's output violate the property clause itself? ---------
@@ -1160,11 +1227,10 @@ class C06(PropCheck):
         return cascade_docs.search(run, failures, reference_winner)
 
     def finding_replays(self):
+        # the replay functions of the repaired findings (var-inherit-on-root, media-attr-case-sensitive,
+        # border-image-width-not-computed) are the corpus-first `regressions` section now
         return {
-            'var-inherit-on-root': cascade_docs.replay_var_inherit_on_root,
             'inherit-skips-computed-value': cascade_docs.replay_inherit_skips_computing,
-            'media-attr-case-sensitive': cascade_docs.replay_media_attr_case,
-            'border-image-width-not-computed': cascade_docs.replay_border_image_width,
         }
 
     def replay(self, data):
@@ -1184,13 +1250,15 @@ MANIFEST = {
             'declaration_precedence realises UA < user < author < author! < user!; missing declarations inherit or '
             'take the initial value, inherit on the root is initial; em/rem/%/larger/smaller/bolder/lighter compute '
             'against the stated reference with monotone generated tables; :nth(an+b) page matching is exactly '
-            '"exists n >= 0, index + 1 = a n + b"; media rules apply iff all or the device type is listed. The model is '
+            '"exists n >= 0, index + 1 = a n + b"; media rules apply iff all or the device type is listed; the '
+            'per-document cache of the ex / ch ratios is transparent (every length is computed against its own font '
+            'whatever was computed before). The model is '
             'tied to /repo by generated tables and by exact comparison with the real code on generated inputs.',
     'note': 'Partial: selector matching and specificity computation are cssselect2 (assumed); validators are used as '
-            'given; Pango character ratios are parameters; var() substitution is exercised only through mock Pending '
-            'objects (token-level resolution belongs to C07); lazy-vs-eager evaluation order is exercised by reading '
-            'keys in random order, not proved. Known findings: inherit reached through var() on the root element '
-            'raises TypeError; an inherited value '
-            'is stored without its computing function (border width with style none, display of a floated box); the '
-            'media attribute of <style>/<link> is case-sensitive.',
+            'given; what Pango measures for ex / ch is a parameter (the cache around it is modelled and proved '
+            'transparent); var() substitution is exercised through mock Pending objects and through rendered documents '
+            'whose Pending values are solved by the real resolve_var (token-level resolution belongs to C07). '
+            'Known finding: an inherited value is stored without its computing function (border width with style none, '
+            'display of a floated box). Repaired and kept as corpus-first regressions: inherit through var() on the root '
+            'element, the case-sensitive media attribute of <style>/<link>, uncomputed border-image-width lengths.',
 }
